@@ -78,6 +78,7 @@ type FuncSpec struct {
 	Line     int
 	Ghost    []string
 	Fresh    []Clause // results declared fresh
+	Reveal   []string // opaque macros unfolded while verifying this function
 }
 
 // Macro is a spec-level definition.
@@ -86,6 +87,7 @@ type Macro struct {
 	Params []string
 	Body   SExpr
 	Text   string
+	Opaque bool // uninterpreted outside the functions that `reveal` it
 }
 
 // UFDecl declares an uninterpreted spec function.
@@ -190,11 +192,19 @@ func (db *SpecDB) LoadFile(path, pkg string) error {
 			}
 			db.Funcs[key] = fs
 			cur = fs
-		case "define":
+		case "define", "opaque":
+			if word == "opaque" {
+				w2, r2 := splitWord(rest)
+				if w2 != "define" {
+					return fail("expected `opaque define`")
+				}
+				rest = r2
+			}
 			m, err := parseMacro(rest)
 			if err != nil {
 				return fail("%v", err)
 			}
+			m.Opaque = word == "opaque"
 			db.Macros[m.Name] = m
 		case "uf":
 			u, err := parseUF(rest)
@@ -422,6 +432,8 @@ func parseClause(fs *FuncSpec, word, rest string, line int) error {
 		fs.Records = strings.TrimSpace(rest)
 	case "ghost":
 		fs.Ghost = append(fs.Ghost, splitNames(rest)...)
+	case "reveal":
+		fs.Reveal = append(fs.Reveal, splitNames(rest)...)
 	default:
 		return fmt.Errorf("unknown clause %q", word)
 	}
